@@ -36,6 +36,35 @@ def mc_opt(ck, slice_, maxlen, maxsteps, budget=2, guards=ALL_GUARDS, invs=("L1E
     return cases, n[0]
 
 
+def mechanism_binding(ck, cases):
+    """binding diagnostics (never a verdict): the real optimize() against Renumber / StackCount / PreExec
+    evaluated with the code's own budget - slot numbers, vector size, stop index, state left behind"""
+    work = tmpdir("optdump_%s" % ck.pid)
+    cpath = os.path.join(work, "cases.json")
+    M.write_cases(cpath, [{"prog": c["prog"]} for c in cases])
+    out = os.path.join(work, "dump.ndjson")
+    try:
+        p = subprocess.run([M.HVEXEC, "optdump", "--in", cpath, "--out", out], stdin=subprocess.DEVNULL, timeout=300)
+        if p.returncode != 0:
+            raise RuntimeError("status %s" % p.returncode)
+    except Exception as ex:
+        ck.cov["binding_drift"].append("mechanism dump of optimize() not available (%s)" % ex)
+        return
+    r = tlc("Trace_HyOptimize", "Trace_HyOptimize.cfg", env={"TRACE": out}, workers=1, timeout=1800, xss="1g", xmx="4g")
+    n = sum(1 for l in open(out) if l.strip())
+    end = [t for t in r.tuples if t[0] == "TRACE-END"]
+    if not end or end[0][2] != n:
+        ck.cov["binding_drift"].append("mechanism trace not consumed: %s" % (r.error,))
+        return
+    ck.add_tlc(r)
+    drifts = [t for t in r.tuples if t[0] == "DRIFT"]
+    for t in drifts[:10]:
+        ck.cov["binding_drift"].append("optimize level %s: %s :: program %s" % (t[2], t[3], M.prog_text(json.loads(t[4]))[:200]))
+    ck.cov["vacuity"]["mechanism_dumps_compared"] = n
+    ck.cov["vacuity"]["mechanism_drifts"] = len(drifts)
+    log("mechanism binding: %d dumps compared with HyOptimize, %d drift(s)" % (n, len(drifts)))
+
+
 def classify_c02(e, run, exp):
     if run is None:
         return None
@@ -145,6 +174,7 @@ def check_c02(pid, tier, seed, replay):
     M.validate_traces(ck, obs, 14, classify_c02, "T-retjump")
     tcases = tcases + rj
     ck.cov["vacuity"]["T_programs"] = len(tcases)
+    mechanism_binding(ck, tcases[:400 if quick else 4000])
     ck.cov["rule"] = "M: HyOptimize refines HyMachine on every program of the slices; R: those programs through `hyeong run -O0/-O1/-O2`; T: loop/IO program families and seeded structured programs"
     return ck.finish()
 
